@@ -48,6 +48,7 @@ fn regress(id: &str, ctx: &Ctx, f: fn(&Ctx, &Value)) {
 }
 
 props! {
+    "C16" => c16,
     "C17" => c17,
     "C18" => c18,
     "C19" => c19,
